@@ -24,7 +24,10 @@ QUICK_WORKERS = 4
 WORKERS = 14
 
 
-def run_history(ctx, seed, growth=False):
+PROTOCOL_MAX_STREAM = {1: 127, 2: 127}          # one signed byte in v1/v2 frames, a signed short (32767) from v3 on
+
+
+def run_history(ctx, seed, growth=False, stock12=False):
     """growth=True: the stock id space (32768 ids, 300 pre-allocated) with more than 300 requests outstanding at once, so that
     the connection has to grow its id set (the get_request_id slow path) - the small-id-space histories never reach it."""
     from sim.env import SimEnv
@@ -39,6 +42,12 @@ def run_history(ctx, seed, growth=False):
         proto = rng.choice([3, 4])
         K = 2 ** 15
         nreq = rng.choice([301, 302, 303, 310, 330, 420])
+    if stock12:
+        # protocol v1/v2 with the stock settings: 128 stream ids (0..127); more than 128 requests so that every id of the
+        # free list comes round, mostly answered promptly (sequential traffic walks the FIFO of free ids)
+        proto = rng.choice([1, 2, 2])
+        K = 2 ** 15
+        nreq = rng.choice([129, 130, 131, 140, 200, 260])
     ch = W.RandomChooser(random.Random(seed * 7 + 1), p_time=0.0, p_preempt=rng.choice([0.0, 0.1, 0.3]))
     env = SimEnv(ch, addresses=['127.0.0.1'])
     env.conn_class.max_in_flight = K
@@ -74,11 +83,11 @@ def run_history(ctx, seed, growth=False):
                 conn.lock.hooks = [inv]
         for c in env.net.conns:
             hook_conn(c)
-        ch.p_time = 0.0 if growth else rng.choice([0.0, 0.05, 0.15])
+        ch.p_time = 0.0 if (growth or stock12) else rng.choice([0.0, 0.05, 0.15])
         kinds = {}
         timeout = 1.0
         to_send = list(range(nreq))
-        fail_at = rng.randrange(nreq) if (rng.random() < 0.2 and not growth) else None
+        fail_at = rng.randrange(nreq) if (rng.random() < 0.2 and not growth and not stock12) else None
         if growth:
             timeout = 600.0
         while to_send:
@@ -88,6 +97,8 @@ def run_history(ctx, seed, growth=False):
                 k = rng.choices(['rows', 'hold', 'late', 'silent'], [5, 4, 3, 1 if rng.random() < 0.5 else 0])[0]
                 if growth:
                     k = 'hold' if (uid < 300 or rng.random() < 0.8) else 'rows'     # keep > 300 ids busy at once
+                if stock12:
+                    k = rng.choices(['rows', 'hold'], [9, 1])[0]
                 kinds[uid] = k
                 plan.set(uid, {'rows': 'rows', 'hold': 'hold', 'late': 'hold', 'silent': 'silent'}[k])
                 rec.execute_async(session, uid, timeout=timeout)
@@ -136,6 +147,9 @@ def run_history(ctx, seed, growth=False):
                 conn = env.net.conns[e[1]]
                 if e[2] < 0 or e[2] > conn.max_request_id:
                     viol.append(('stream-id-beyond-maximum', 'request on conn %d used stream %d (max %d)' % (e[1], e[2], conn.max_request_id)))
+                if e[2] > PROTOCOL_MAX_STREAM.get(proto, 32767):
+                    viol.append(('stream-id-beyond-protocol-maximum', 'request on conn %d used stream %d, protocol v%d frames carry at most %d' % (
+                        e[1], e[2], proto, PROTOCOL_MAX_STREAM.get(proto, 32767))))
                 if key in outstanding:
                     viol.append(('stream-id-reused-while-outstanding', 'conn %d stream %d reused for %s before the node answered the previous request' % (e[1], e[2], e[3])))
                 outstanding[key] = e
@@ -211,9 +225,12 @@ def run(ctx):
         seed = base + i
         try:
             growth = (i % 12 == 5)
-            viol, harness, sig, info, hist = run_history(ctx, seed, growth=growth)
+            stock12 = (i % 12 == 9)
+            viol, harness, sig, info, hist = run_history(ctx, seed, growth=growth, stock12=stock12)
             if growth:
                 ctx.count("histories_growing_the_id_set_beyond_300")
+            if stock12:
+                ctx.count("histories_v1_v2_stock_id_space_all_ids_used")
         except Exception as e:
             from sim.world import WorldHang, WorldLimit
             if isinstance(e, WorldLimit):
@@ -245,4 +262,5 @@ def run(ctx):
             ctx.sample({"info": info, "client_history": [repr(e)[:100] for e in hist[0]][:30], "node_history": [repr(e) for e in hist[1]][:40]})
     ctx.floor_distinct = 150 if ctx.quick else 5000
     ctx.floor_counters = {"histories": 150, "responses_delivered_and_matched": 1000, "late_responses": 100, "invariant_evaluations_under_lock": 5000,
-                          "quiescent_connections_checked_for_conservation": 100}
+                          "quiescent_connections_checked_for_conservation": 100,
+                          "histories_growing_the_id_set_beyond_300": 5, "histories_v1_v2_stock_id_space_all_ids_used": 5}
